@@ -59,14 +59,29 @@ def run(ctx):
 
     fparam = fx.node.args.args[1].arg
     fm = [m_ for m_ in first_matches(prog, fx) if m_["terminal"] == "cls" and m_["elt"] == "_"]
+    # the search may live in a helper classmethod called with the token (`cls._first_member_having(xml_value)`)
+    import re as _re
+
+    for c_ in ast.walk(fx.node):
+        if isinstance(c_, ast.Call) and isinstance(c_.func, ast.Attribute) and dotted(c_.func.value) in ("cls", "self") and len(c_.args) == 1 \
+                and dotted(c_.args[0]) == fparam:
+            g_ = prog.lookup(base, c_.func.attr)
+            if g_ is not None and g_ is not fx:
+                gp_ = [a.arg for a in g_.node.args.args if a.arg not in ("cls", "self")]
+                for m_ in first_matches(prog, g_):
+                    if m_["terminal"] == "cls" and m_["elt"] == "_" and gp_:
+                        fm.append(dict(m_, conds=[_re.sub(r"\b%s\b" % _re.escape(gp_[0]), fparam, x) for x in m_["conds"]]))
     eq = {"_.xml_value == %s" % fparam, "%s == _.xml_value" % fparam}
     raises_fx = [n for n in ast.walk(fx.node) if isinstance(n, ast.Raise)]
     rows = P_.outcomes(_desugar(fx.node).body)
-    empty_rows = [r for r in rows if P_.implied(r.facts, lambda a_: a_[0] == "truthy" and a_[1] == fparam and a_[2] is False)]
+    # the empty token never maps to a member: every returning path has established that the token is non-empty
+    ret_rows = P_.return_rows_deep(_desugar(fx.node).body)
+    empty_rows = ret_rows
+    nonempty_ok = bool(ret_rows) and all(P_.implied(fs_, lambda a_: a_[0] == "truthy" and a_[1] == fparam and a_[2] is True) for fs_, _n in ret_rows)
     if not fm:
         ctx.error("BaseXmlEnum.from_xml", "the member search (first member of cls with ...) is not recognised")
     elif any(set(m_["conds"]) <= eq and m_["conds"] for m_ in fm) and raises_fx and all(_exc_name(r) == "ValueError" for r in raises_fx) \
-            and empty_rows and all(r.end == "raise" for r in empty_rows):
+            and nonempty_ok:
         ctx.ok("R20.1m", "BaseXmlEnum.from_xml", sample={"selects": "first member of cls with member.xml_value == xml_value", "raises": "ValueError",
                                                        "empty_token": "ValueError"})
     else:
